@@ -479,8 +479,9 @@ def chord_obligations(ix, R, site):
             if eop != op or not fl.tab.equal(e.target, spec(fl, tg, b)) or \
                     not fl.tab.equal(e.value, spec(fl, val, b)):
                 why.append('%s' % unparse(e.node))
+    from sa.helpers import implied_by_loop
     for e in stores + [ap, k_alloc]:
-        if e.guards:
+        if [g_ for g_ in e.guards if not implied_by_loop(fl, e, g_)]:
             why.append('%s is conditional on %s' % (unparse(e.node)[:40], ' and '.join(g.text() for g in e.guards)))
     R.check('6.geom', 'ALG', site,
             'shell chords: outer-boundary half-chord minus inner-boundary half-chord, '
